@@ -129,7 +129,7 @@ def header_from_cfg(cfg):
         w.append(int(m.get("outstandingShares", 0)))
         comps.append([mid[x] for x in m.get("markets", [])])
         p0s.append(int(float(m["marketPrice"]) * 1024 / float(m["tickSize"])))
-    return {"fs": fs, "ms": ms, "pl": pl, "hl": hl, "w": w, "comps": comps, "p0s": p0s}
+    return {"fs": fs, "ms": ms, "pl": pl, "hl": hl, "w": w, "comps": comps, "p0s": p0s, "neg": ""}
 
 
 def lengthen(cfg, rng):
@@ -141,6 +141,34 @@ def lengthen(cfg, rng):
     cfg["N"]["numAgents"] = 2
     cfg["N"]["script"] = dict(cfg["N"]["script"], pEmpty=0.7, maxBatch=1)
     return cfg
+
+
+def negative_index_runs(seed):
+    """configurations the loader must refuse: an index naming the same component twice, an index over a market
+    without outstandingShares"""
+    rng = random.Random(sub_seed(seed, "index-negative"))
+    runs = []
+    for neg in ("duplicate-component", "component-without-shares", "duplicate-component", "component-without-shares"):
+        cfg = make(rng, "index")
+        names = [n for n in cfg["simulation"]["markets"] if n != "IDX"]
+        if "IDX" not in cfg:
+            cfg["IDX"] = {"class": "ProbeIndexMarket", "tickSize": 1.0, "marketPrice": 192.0, "markets": list(names)}
+            cfg["simulation"]["markets"].append("IDX")
+            for g in ("N", "H"):
+                cfg[g]["markets"] = list(cfg[g]["markets"]) + ["IDX"]
+        if neg == "duplicate-component":
+            comps = list(names)
+            comps.insert(rng.randrange(len(comps) + 1), rng.choice(names))
+            cfg["IDX"]["markets"] = comps
+        else:
+            victim = rng.choice(cfg["IDX"]["markets"])
+            del cfg[victim]["outstandingShares"]
+        r = drive_run.execute(cfg, rng.randrange(2 ** 31))
+        r["src"] = "events:index-negative"
+        r["evhdr"] = header_from_cfg(cfg)
+        r["evhdr"]["neg"] = neg
+        runs.append(r)
+    return runs
 
 
 def generate(n, seed, kinds=("fshock", "mistake", "plimit", "halt", "index", "mixed"), long_every=25):
